@@ -541,6 +541,7 @@ struct Env {
     faults_at_turn: usize,
     mask_at_turn: usize,
     dmarked: Vec<bool>,
+    dturn: Vec<(usize, bool)>,       // per dispatch: handles in the rotation right after it; every handle was marked available at its last turn
     points: Vec<(String, usize)>,
     anchored: Vec<(String, usize, Act, bool)>, // kind, nth (1-based, per iteration), action, fired
     point_counts: HashMap<String, usize>,
@@ -613,6 +614,8 @@ pub struct Snap {
     pub davail: Vec<usize>,
     /// per dispatch: the target's availability bit was set at the last turn of the rotation (or no bit was set at all)
     pub dmarked: Vec<bool>,
+    /// per dispatch: handles in the rotation right after it; every handle was marked available at its last turn
+    pub dturn: Vec<(usize, bool)>,
     pub inprog: Vec<Vec<usize>>,
     pub finished: Vec<usize>,
     pub uds_path: Vec<bool>,
@@ -975,6 +978,7 @@ impl Env {
                     self.dispatched.push((cid, arg, gen));
                     // the target was marked available at the last turn of the rotation, or nobody was (forced hand-over)
                     self.dmarked.push(self.mask_at_turn == 0 || self.mask_at_turn & (1 << arg) != 0);
+                    self.dturn.push((0, self.handles_at_turn > 0 && self.mask_at_turn.count_ones() as usize >= self.handles_at_turn));
                     self.dclean.push(true);
                     self.collect_faults();
                     self.dload.push(self.load_gen(arg));
@@ -996,6 +1000,9 @@ impl Env {
                 // ones the rotation saw when it chose the target)
                 while self.davail.len() < self.dispatched.len() {
                     self.davail.push(arg >> 16);
+                }
+                if let Some(t) = self.dturn.last_mut() {
+                    t.0 = nh;
                 }
                 let loaded = (0..self.cfg.workers).any(|i| self.load(i) >= self.cfg.limit);
                 if any_false || nh != self.cfg.workers || loaded {
@@ -1113,6 +1120,7 @@ impl Sim {
             faults_at_turn: 0,
             mask_at_turn: 0,
             dmarked: vec![],
+            dturn: vec![],
             points: vec![],
             anchored: vec![],
             point_counts: HashMap::new(),
@@ -1367,6 +1375,7 @@ impl Sim {
         s.wwoken = e.workers.iter().map(|w| w.flag.0.load(Ordering::SeqCst)).collect();
         s.davail = e.davail.clone();
         s.dmarked = e.dmarked.clone();
+        s.dturn = e.dturn.clone();
         s.in_hand = e.in_hand.map(|c| c as i64).unwrap_or(-1);
         s.inprog = vec![vec![]; n];
         {
